@@ -13,6 +13,7 @@ import (
 	"strings"
 	"sync"
 	"testing"
+	"time"
 
 	"pgregory.net/rapid"
 	"verif/harness/internal/ev"
@@ -101,101 +102,132 @@ func evaluate(c *Case) *verdict {
 	base := map[string]*runResult{}
 	var baseJSON *parsed
 	crossFacts := 0
-	for _, cfg := range c.Det {
-		if ev.PastDeadline() {
-			return v
-		}
-		res, err := staticcheck(binPlain, dir, c.Tests, cfg)
-		if err != nil {
-			v.infra = err.Error()
-			return v
-		}
-		b, ok := base[cfg.Format]
-		if !ok {
-			base[cfg.Format] = res
-			if res.exit != 0 && res.exit != 1 {
-				v.invalid = fmt.Sprintf("%s: exit status %d\nstderr: %s", cfg, res.exit, trunc(res.stderr, 2000))
-				return v
-			}
-			if cfg.Format == "json" {
-				baseJSON, err = parseJSON(res.stdout, dir)
-				if err != nil {
-					v.invalid = err.Error()
-					return v
-				}
-				if baseJSON.codes["compile"] > 0 || baseJSON.codes["config"] > 0 {
-					v.invalid = "the generated module does not compile:\n" + trunc(res.stdout, 2000)
-					return v
-				}
-				crossFacts = baseJSON.crossFactProblems()
-				nprob := 0
-				for _, n := range baseJSON.codes {
-					nprob += n
-				}
-				ev.Count("modules", 1)
-				ev.Count("problems_in_baselines", nprob)
-				ev.Count("fact_dependent_problems_in_baselines", crossFacts)
-				ev.Count("u1000_problems_in_baselines", baseJSON.codes["U1000"])
-				ev.Count(fmt.Sprintf("module_pkgs_%02d", len(c.Pkgs)), 1)
-				if c.hasDiamond() {
-					ev.Count("modules_with_diamond", 1)
-				}
-				if !graphOK {
-					ev.Count("modules_without_concurrent_pair", 1)
-				}
-				if crossFacts == 0 {
-					ev.Count("modules_without_fact_dependent_problem", 1)
-				}
-			}
-			if strings.TrimSpace(res.stderr) != "" {
-				ev.Count("runs_with_stderr_output", 1)
-			}
-			continue
-		}
-		differs := cfg.Procs != b.cfg.Procs || (hook && cfg.Seed != b.cfg.Seed)
-		classes := []string{"pair_determinism", "fmt_" + cfg.Format, fmt.Sprintf("procs_%02d", cfg.Procs),
-			fmt.Sprintf("pair_procs_%02d_vs_%02d", b.cfg.Procs, cfg.Procs), testsClass}
-		if cfg.Procs == b.cfg.Procs {
-			classes = append(classes, "pair_same_procs_repetition")
-		}
-		if hook {
-			classes = append(classes, "pair_seeded_yields")
-		} else {
-			classes = append(classes, "pair_seed_ignored_no_hook")
-		}
-		ev.Case(ev.Hash(mh, "det", cfgKey(b.cfg, hook), cfgKey(cfg, hook)), graphOK && crossFacts > 0 && differs, classes...)
-		if res.exit == b.exit && res.stdout == b.stdout {
-			continue
-		}
-		// known order noise of the two structured formats: only the order differs
-		if res.exit == b.exit && (cfg.Format == "sarif" || cfg.Format == "binary") {
-			norm, sig := normSarif, sigSarif
-			if cfg.Format == "binary" {
-				norm, sig = normBinary, sigBinary
-			}
-			na, erra := norm(b.stdout)
-			nb, errb := norm(res.stdout)
-			if erra == nil && errb == nil && na == nb && ev.IsKnown(sig) {
-				ev.KnownFinding(sig, "")
-				ev.Count("known_order_noise_"+cfg.Format, 1)
+	// detStage runs the determinism runs selected by want; it returns true when the evaluation ends
+	detStage := func(want func(format string) bool) bool {
+		for _, cfg := range c.Det {
+			if !want(cfg.Format) {
 				continue
 			}
-			if erra == nil && errb == nil && na == nb {
-				v.msg = fmt.Sprintf("[%s] -f %s is not byte-identical between two runs on the same module; the two outputs are equal after sorting (sarif: the rules array; binary: checked files and diagnostics), i.e. only an order differs.\nA: %s\nB: %s\n%s",
-					sig, cfg.Format, b.cfg, cfg, firstDiff(b.stdout, res.stdout))
-				reduce(v.msg, func(r *Case) { r.Det = []RunCfg{b.cfg, cfg} })
-				return v
+			if ev.PastDeadline() {
+				return true
 			}
+			res, err := staticcheck(binPlain, dir, c.Tests, cfg)
+			if err != nil {
+				v.infra = err.Error()
+				return true
+			}
+			b, ok := base[cfg.Format]
+			if res.timedOut {
+				other := b
+				if other == nil {
+					other = base["json"]
+				}
+				if other == nil {
+					v.infra = fmt.Sprintf("%s: the first run on the module did not end within %v", cfg, res.limit)
+					return true
+				}
+				v.msg = hangMsg(c, res, other)
+				reduce(v.msg, func(r *Case) { r.Det = []RunCfg{other.cfg, cfg} })
+				return true
+			}
+			if !ok {
+				base[cfg.Format] = res
+				if res.exit != 0 && res.exit != 1 {
+					v.invalid = fmt.Sprintf("%s: exit status %d\nstderr: %s", cfg, res.exit, trunc(res.stderr, 2000))
+					return true
+				}
+				if cfg.Format == "json" {
+					baseJSON, err = parseJSON(res.stdout, dir)
+					if err != nil {
+						v.invalid = err.Error()
+						return true
+					}
+					if baseJSON.codes["compile"] > 0 || baseJSON.codes["config"] > 0 {
+						v.invalid = "the generated module does not compile:\n" + trunc(res.stdout, 2000)
+						return true
+					}
+					crossFacts = baseJSON.crossFactProblems()
+					nprob := 0
+					for _, n := range baseJSON.codes {
+						nprob += n
+					}
+					ev.Count("modules", 1)
+					ev.Count("problems_in_baselines", nprob)
+					ev.Count("fact_dependent_problems_in_baselines", crossFacts)
+					ev.Count("u1000_problems_in_baselines", baseJSON.codes["U1000"])
+					ev.Count(fmt.Sprintf("module_pkgs_%02d", len(c.Pkgs)), 1)
+					if c.hasDiamond() {
+						ev.Count("modules_with_diamond", 1)
+					}
+					if !graphOK {
+						ev.Count("modules_without_concurrent_pair", 1)
+					}
+					if crossFacts == 0 {
+						ev.Count("modules_without_fact_dependent_problem", 1)
+					}
+				}
+				if strings.TrimSpace(res.stderr) != "" {
+					ev.Count("runs_with_stderr_output", 1)
+				}
+				continue
+			}
+			differs := cfg.Procs != b.cfg.Procs || (hook && cfg.Seed != b.cfg.Seed)
+			classes := []string{"pair_determinism", "fmt_" + cfg.Format, fmt.Sprintf("procs_%02d", cfg.Procs),
+				fmt.Sprintf("pair_procs_%02d_vs_%02d", b.cfg.Procs, cfg.Procs), testsClass}
+			if cfg.Procs == b.cfg.Procs {
+				classes = append(classes, "pair_same_procs_repetition")
+			}
+			if hook {
+				classes = append(classes, "pair_seeded_yields")
+			} else {
+				classes = append(classes, "pair_seed_ignored_no_hook")
+			}
+			ev.Case(ev.Hash(mh, "det", cfgKey(b.cfg, hook), cfgKey(cfg, hook)), graphOK && crossFacts > 0 && differs, classes...)
+			if res.exit == b.exit && res.stdout == b.stdout {
+				continue
+			}
+			// known order noise of the two structured formats: only the order differs
+			if res.exit == b.exit && (cfg.Format == "sarif" || cfg.Format == "binary") {
+				norm, sig := normSarif, sigSarif
+				if cfg.Format == "binary" {
+					norm, sig = normBinary, sigBinary
+				}
+				na, erra := norm(b.stdout)
+				nb, errb := norm(res.stdout)
+				if erra == nil && errb == nil && na == nb && ev.IsKnown(sig) {
+					ev.KnownFinding(sig, "")
+					ev.Count("known_order_noise_"+cfg.Format, 1)
+					continue
+				}
+				if erra == nil && errb == nil && na == nb {
+					v.msg = fmt.Sprintf("[%s] -f %s is not byte-identical between two runs on the same module; the two outputs are equal after sorting (sarif: the rules array; binary: checked files and diagnostics), i.e. only an order differs.\nA: %s\nB: %s\n%s",
+						sig, cfg.Format, b.cfg, cfg, firstDiff(b.stdout, res.stdout))
+					reduce(v.msg, func(r *Case) { r.Det = []RunCfg{b.cfg, cfg} })
+					return true
+				}
+			}
+			v.msg = fmt.Sprintf("stdout/exit status of two runs on the same module differ (-tests=%v).\nA: %s -> exit %d, %d bytes\nB: %s -> exit %d, %d bytes\n%s\nstderr A: %s\nstderr B: %s",
+				c.Tests, b.cfg, b.exit, len(b.stdout), cfg, res.exit, len(res.stdout), firstDiff(b.stdout, res.stdout), trunc(b.stderr, 1500), trunc(res.stderr, 1500))
+			reduce(v.msg, func(r *Case) { r.Det = []RunCfg{b.cfg, cfg} })
+			return true
 		}
-		v.msg = fmt.Sprintf("stdout/exit status of two runs on the same module differ (-tests=%v).\nA: %s -> exit %d, %d bytes\nB: %s -> exit %d, %d bytes\n%s\nstderr A: %s\nstderr B: %s",
-			c.Tests, b.cfg, b.exit, len(b.stdout), cfg, res.exit, len(res.stdout), firstDiff(b.stdout, res.stdout), trunc(b.stderr, 1500), trunc(res.stderr, 1500))
-		reduce(v.msg, func(r *Case) { r.Det = []RunCfg{b.cfg, cfg} })
+		return false
+	}
+	if detStage(func(f string) bool { return f == "json" }) {
 		return v
 	}
 
 	// ---- (iii) the race detector
 	for _, cfg := range c.Race {
 		if ev.PastDeadline() {
+			return v
+		}
+		if _, err := stdRace.get(); err != nil {
+			v.infra = "std-only cache of the race build: " + err.Error()
+			return v
+		}
+		if msg, rc := warmViolation(); msg != "" {
+			v.msg, v.reduced = msg, rc
 			return v
 		}
 		res, err := staticcheck(binRace, dir, c.Tests, cfg)
@@ -206,6 +238,11 @@ func evaluate(c *Case) *verdict {
 		ev.Case(ev.Hash(mh, "race", cfgKey(cfg, hook)), graphOK && crossFacts > 0 && cfg.Procs >= 2,
 			"race_run", fmt.Sprintf("race_procs_%02d", cfg.Procs), testsClass)
 		ev.Count("race_run_wall_ms", int(res.wall.Milliseconds()))
+		if res.timedOut && !res.raced() {
+			v.msg = hangMsg(c, res, base["json"])
+			reduce(v.msg, func(r *Case) { r.Det = []RunCfg{base["json"].cfg}; r.Race = []RunCfg{cfg} })
+			return v
+		}
 		if res.raced() {
 			v.msg = fmt.Sprintf("the race detector reported a data race in %s (-tests=%v), exit status %d:\n%s", cfg, c.Tests, res.exit, trunc(res.stderr, 6000))
 			reduce(v.msg, func(r *Case) { r.Race = []RunCfg{cfg} })
@@ -222,6 +259,10 @@ func evaluate(c *Case) *verdict {
 			return v
 		}
 	}
+	if detStage(func(f string) bool { return f != "json" }) {
+		return v
+	}
+
 	// ---- (ii) the problems of a package do not depend on the other packages named
 	single := map[string][]string{}
 	singleCfg := map[string]RunCfg{}
@@ -233,6 +274,11 @@ func evaluate(c *Case) *verdict {
 		res, err := staticcheck(binPlain, dir, c.Tests, cfg)
 		if err != nil {
 			v.infra = err.Error()
+			return v
+		}
+		if res.timedOut {
+			v.msg = hangMsg(c, res, base["json"])
+			reduce(v.msg, func(r *Case) { r.Singles = []string{p}; r.SProcs = c.SProcs; r.Det = c.Det[:1] })
 			return v
 		}
 		if res.exit != 0 && res.exit != 1 {
@@ -291,6 +337,9 @@ func evaluate(c *Case) *verdict {
 				one.Args2 = nil
 				reduce(msg, func(r *Case) { r.Singles = named; r.SProcs = c.SProcs; r.Subsets = []SubsetCfg{one} })
 				return v
+			}
+			if res.timedOut {
+				return fail(hangMsg(c, res, base["json"]))
 			}
 			if res.exit != 0 && res.exit != 1 {
 				return fail(fmt.Sprintf("%s: exit status %d although the packages alone succeeded\nstderr: %s", cfg, res.exit, trunc(res.stderr, 2000)))
@@ -353,6 +402,16 @@ func evaluate(c *Case) *verdict {
 	return v
 }
 
+// hangMsg describes a run that was killed after its time limit while another
+// run on the same module ended.
+func hangMsg(c *Case, res *runResult, other *runResult) string {
+	if other == nil {
+		other = &runResult{cfg: RunCfg{Format: "(no other run of this evaluation ended before)"}}
+	}
+	return fmt.Sprintf("a run did not end within %v while another run on the same module ended after %v (-tests=%v).\nnot ending: %s (%s)\nended: %s\nstderr of the killed run (goroutine dump after SIGQUIT):\n%s",
+		res.limit, other.wall.Round(time.Millisecond), c.Tests, res.cfg, res.bin, other.cfg, trunc(res.stderr, 5000))
+}
+
 func equalLines(a, b []string) bool {
 	if len(a) != len(b) {
 		return false
@@ -377,30 +436,24 @@ func distinctStrings(xs []string) []string {
 	return out
 }
 
-// checkWarm turns a race reported during the cold run that builds the
+// warmViolation turns a race reported during the cold run that builds the
 // std-only cache of the race binary into a violation (that run analyses about
-// 130 standard-library packages concurrently).
-func checkWarm(t *testing.T) bool {
-	for _, s := range []*stdCache{stdPlain, stdRace} {
-		if !s.warmed {
-			continue
-		}
-		s.warmed = false
-		if s.bin == binRace {
-			ev.Case(ev.Hash("race-cold-std"), true, "race_run", "race_run_cold_std")
-		}
-		if s.warmExit == 66 || strings.Contains(s.warmStderr, "DATA RACE") {
-			msg := "the race detector reported a data race in a cold run over the std-only module (GOMAXPROCS=8):\n" + trunc(s.warmStderr, 6000)
-			c := &Case{Module: modPath, Pkgs: []string{"q"}, Imports: map[string][]string{"q": {}}, Tests: true,
-				Files: map[string]string{"go.mod": "module " + modPath + "\n\ngo 1.26.0\n", "q/a.go": stdModFiles},
-				Race:  []RunCfg{{Format: "json", Procs: 8, Seed: 1}}, Repeat: 3, Note: trunc(msg, 3000)}
-			js, _ := json.Marshal(c)
-			ev.Violate("TestSchedules", msg, "json", js)
-			t.Errorf("%s", msg)
-			return false
-		}
+// 130 standard-library packages concurrently). It also records the run.
+func warmViolation() (string, *Case) {
+	s := stdRace
+	if !s.warmed {
+		return "", nil
 	}
-	return true
+	s.warmed = false
+	ev.Case(ev.Hash("race-cold-std"), true, "race_run", "race_run_cold_std")
+	if s.warmExit == 66 || strings.Contains(s.warmStderr, "DATA RACE") {
+		msg := "the race detector reported a data race in a cold run over the std-only module (GOMAXPROCS=8):\n" + trunc(s.warmStderr, 6000)
+		c := &Case{Module: modPath, Pkgs: []string{"q"}, Imports: map[string][]string{"q": {}}, Tests: true,
+			Files: map[string]string{"go.mod": "module " + modPath + "\n\ngo 1.26.0\n", "q/a.go": stdModFiles},
+			Race:  []RunCfg{{Format: "json", Procs: 8, Seed: 1}}, Repeat: 3, Note: trunc(msg, 3000)}
+		return msg, c
+	}
+	return "", nil
 }
 
 func assumptions() {
@@ -418,9 +471,14 @@ func TestSchedules(t *testing.T) {
 		ev.Infra("std-only cache: %v", err)
 		t.Fatalf("std-only cache: %v", err)
 	}
-	ev.Extra("scheduling_hook_H1_active", hookOn())
+	if hookOn() {
+		ev.Extra("scheduling_hook_H1", "active: VERIF_SCHED_SEED perturbs the runner's dispatch points")
+	} else {
+		ev.Extra("scheduling_hook_H1", "absent in the binary: VERIF_SCHED_SEED is ignored, schedules vary by GOMAXPROCS, repetition and load only")
+	}
 	raceEvery := ev.EnvInt("C06_RACE_EVERY", 4, 2)
-	doRace := raceEvery > 0 && ev.Shard()%raceEvery == 0 // C06_RACE_EVERY=0 switches the race runs off
+	// every raceEvery-th shard also runs the -race build (not shard 0, which replays the corpus); C06_RACE_EVERY=0 switches it off
+	doRace := raceEvery > 0 && (ev.NShards() == 1 || ev.Shard()%raceEvery == 1%raceEvery)
 	var raceWarm sync.WaitGroup
 	if doRace {
 		// build the race binary's std-only cache while the other runs go on
@@ -439,41 +497,35 @@ func TestSchedules(t *testing.T) {
 		genModule(rt, c, maxPkgs)
 		c.Tests = chance(rt, "tests_flag", 60)
 		genPlan(rt, c, nrep, nfmt, nsingles, nsubsets, allSubsets, doRace)
-		runCase(rt, t, c, &raceWarm)
+		runCase(rt, c)
 	})
 	raceWarm.Wait()
-	checkWarm(t)
+	if msg, rc := warmViolation(); msg != "" {
+		js, _ := json.Marshal(rc)
+		ev.Violate("TestSchedules", msg, "json", js)
+		t.Errorf("%s", msg)
+	}
 }
 
-func runCase(rt *rapid.T, t *testing.T, c *Case, raceWarm *sync.WaitGroup) {
+func runCase(rt *rapid.T, c *Case) {
 	js, _ := json.Marshal(c)
 	key := ev.Hash(string(js))
 	memoMu.Lock()
-	old := memo[key]
+	v := memo[key]
 	memoMu.Unlock()
-	if old != nil {
-		rj, _ := json.Marshal(old.reduced)
-		ev.Begin("TestSchedules", "json", rj)
-		ev.Failf(rt, "TestSchedules", "%s", old.msg)
-	}
 	ev.Begin("TestSchedules", "json", js)
-	if len(c.Race) > 0 {
-		if _, err := stdRace.get(); err != nil {
-			ev.Infra("std-only cache of the race build: %v", err)
-			rt.Skip(err.Error())
-		}
-		if !checkWarm(t) {
-			rt.Skip("race in the cache-building run")
-		}
+	if v == nil {
+		v = evaluate(c)
 	}
-	v := evaluate(c)
 	switch {
 	case v.infra != "":
+		// no rt.Skip: rapid would draw up to ten replacement cases and then
+		// fail the test for want of valid ones; the run is inconclusive anyway
 		ev.Infra("%s", v.infra)
-		rt.Skip(v.infra)
+		return
 	case v.invalid != "":
 		ev.Infra("generator produced an invalid module: %s", v.invalid)
-		rt.Skip(v.invalid)
+		return
 	case v.msg != "":
 		memoMu.Lock()
 		memo[key] = v
@@ -503,7 +555,10 @@ func TestRepoSlice(t *testing.T) {
 		return
 	}
 	// two shards, one GOMAXPROCS each; both runs start from an EMPTY cache
-	procs := map[int]int{0: 16, 1: 4}[ev.Shard()]
+	procs := map[int]int{2: 16, 4: 4}[ev.Shard()]
+	if ev.NShards() == 1 {
+		procs = 16
+	}
 	if procs == 0 {
 		return
 	}
@@ -563,15 +618,6 @@ func replayFile(t *testing.T, f, test string) {
 	if err := json.Unmarshal(b, &c); err != nil {
 		ev.Infra("decode %s: %v", f, err)
 		return
-	}
-	if len(c.Race) > 0 {
-		if _, err := stdRace.get(); err != nil {
-			ev.Infra("std-only cache of the race build: %v", err)
-			return
-		}
-		if !checkWarm(t) {
-			return
-		}
 	}
 	n := c.Repeat
 	if n < 1 {
